@@ -418,6 +418,27 @@ func runC19(env *Env) {
 		}
 		seqs = append(seqs, s)
 	}
+	// long runs of one activity type (element slices growing past any reserved capacity), and long mixed chains
+	for k := 0; k < 10; k++ {
+		n := 9 + (k*3)%12 // 9..20
+		s := make([]int, n)
+		for j := range s {
+			s[j] = k
+		}
+		seqs = append(seqs, s)
+	}
+	for i := 0; i < 4; i++ {
+		n := 17 + rng.Intn(16)
+		s := make([]int, n)
+		k := rng.Intn(10)
+		for j := range s {
+			if rng.Intn(4) == 0 {
+				k = rng.Intn(10)
+			}
+			s[j] = k // runs of equal types of random length
+		}
+		seqs = append(seqs, s)
+	}
 	var bitems []string
 	for si, acts := range seqs {
 		presets := make([]string, len(acts))
